@@ -94,6 +94,11 @@ def run(tier, seed, replay_path=None):
                       'request CAS': '0 except in the cas-* programs'})
     ck.assumptions += ['DashMap per-call atomicity; sequential consistency', 'CAS values compared as tokens']
     ck.fork_map(items, lambda c, it: run_item(c, it, tier))
+    # premise of the CAS-carrying programs (their pre-states assume it): along histories no two versions of an item share a token,
+    # also when the shared counter is driven through another key
+    from . import C02
+    C02.bmc_uniqueness(ck, tier)
+    C02.bmc_reissue_two_keys(ck, tier)
     return ck.finish()
 
 
